@@ -17,7 +17,7 @@ from sim.shrink import list_reductions
 
 GRAMMAR_COLS = {'absent', 'int', '-int', 'name', 'slice', 'slice/step', 'list/names', 'list/ints', 'list/mixed',
                 'tuple/names', 'tuple/ints', 'tuple/mixed', 'list/empty', 'tuple/empty'}
-OTHER_COLS = {'ell', 'boollist', 'npint', 'ndarray', 'range'}
+OTHER_COLS = {'ell', 'boollist', 'npmask', 'npint', 'ndarray', 'range'}
 
 
 def K(t, v=None):
@@ -51,6 +51,7 @@ def canonical_cols(D, names):
                K(t, [0, 0]), K(t, [n0, 'NOPE']), K(t, [0, D])]
     ks.append(K('list', []))
     ks += [K('ell'), K('boollist', [True] * D), K('boollist', [i % 2 == 0 for i in range(D)]),
+           K('npmask', [True] * D), K('npmask', [i % 2 == 1 for i in range(D)]),
            K('npint', D - 1), K('ndarray', [D - 1, 0]), K('range', [0, D, 1])]
     return ks
 
@@ -72,7 +73,7 @@ def rand_rows(rng, N):
 
 def rand_cols(rng, D, names):
     t = rng.wchoice([('absent', 4), ('int', 2), ('name', 3), ('slice', 2), ('list', 4), ('tuple', 2), ('ell', 1),
-                     ('boollist', 1), ('npint', 1), ('ndarray', 1), ('range', 1)])
+                     ('boollist', 1), ('npmask', 1), ('npint', 1), ('ndarray', 1), ('range', 1)])
     if t == 'absent' or D == 0:
         return K('absent')
     if t == 'int':
@@ -90,8 +91,8 @@ def rand_cols(rng, D, names):
         if rng.chance(0.04):
             v.append('NOPE')
         return K(t, v)
-    if t == 'boollist':
-        return K('boollist', [rng.chance(0.5) for _ in range(D if rng.chance(0.9) else D + 1)])
+    if t in ('boollist', 'npmask'):
+        return K(t, [rng.chance(0.5) for _ in range(D if rng.chance(0.9) else D + 1)])
     if t == 'npint':
         return K('npint', rng.randint(-D, D - 1))
     if t == 'ndarray':
@@ -209,6 +210,10 @@ class C04Machine(Machine):
             else:
                 rows = rand_rows(rng, h.vals.shape[0])
                 cols = K('absent') if rng.chance(0.85) else rand_cols(rng, len(h.names) or 1, h.names or ['x'])
+            if rng.chance(0.12):
+                ops.append({'op': 'edit_range', 'h': hi, 'col': rng.randint(0, 4), 'end': rng.choice([0, 1]),
+                            'value': rng.choice([-7.0, 0.5, 123456.0])})
+                continue
             if rng.chance(0.3):
                 val = rng.choice([{'k': 'scalar', 'v': rng.randint(0, 7)}, {'k': 'iota', 'v': rng.randint(1, 5)},
                                   {'k': 'row', 'v': rng.randint(0, 5)}])
@@ -306,6 +311,34 @@ class C04Machine(Machine):
         for n, op in enumerate(ops):
             out['evals'] += 1
             real, mh, depth = handles[op['h'] % len(handles)]
+            if op['op'] == 'edit_range':
+                # caller-side edit of one handle's range entry (a legitimate thing to do with one's own sample): the
+                # handle's model follows whatever the handle itself reports afterwards; every OTHER live handle
+                # must be unaffected (checked below like after any other op)
+                try:
+                    rr = real.range()
+                    j = op['col'] % max(1, len(rr))
+                    if rr and rr[j] is not None:
+                        rr[j][op['end']] = op['value']
+                    if mh.meta is not None and hasattr(real, 'channels'):
+                        now = read_meta(real)
+                        if len(now) == len(mh.meta):
+                            for a_, b_ in zip(mh.meta, now):
+                                a_['range'] = b_['range']
+                    bump(out['probes'], 'caller_range_edits')
+                    log.add('edit_range', op['h'], op['col'], op['end'], op['value'])
+                except Exception as e:
+                    log.add('edit_range-refused', type(e).__name__)
+                for hi2, (r2, m2, d2) in enumerate(handles):
+                    bad = check_handle(r2, m2, 'handle%d' % hi2, d2)
+                    if bad:
+                        V.append(violation(bad[0] + '-after', '%s|edit_range|handle:%s' % (mh.role, m2.role),
+                                           'after the caller edited the range of handle %d, live handle %d: %s' % (
+                                               op['h'] % len(handles), hi2, bad[1])))
+                        break
+                if V:
+                    break
+                continue
             rows, cols = op['rows'], op['cols']
             rf, cf = ix.form(rows), ix.form(cols)
             other = cf in OTHER_COLS
@@ -337,7 +370,13 @@ class C04Machine(Machine):
                         bump(out['probes'], 'other_form_refused')
                 else:
                     if mres.role == 'scalar':
-                        if isinstance(rres, np.ndarray):
+                        if isinstance(mres.vals, np.ndarray):
+                            # a key containing an Ellipsis: plain array indexing itself yields a 0-d array, not a scalar
+                            if np.shape(rres) != () or not (np.asarray(rres) == mres.vals) or \
+                                    np.asarray(rres).dtype != mres.vals.dtype:
+                                V.append(violation('C04/values', site0, 'cell %r: got %r expected %r' % (key, rres, mres.vals)))
+                            bump(out['probes'], 'zero_d_result_as_numpy')
+                        elif isinstance(rres, np.ndarray):
                             V.append(violation('C04/scalar', site0, 'single cell came back as %s' % type(rres).__name__))
                         elif not (rres == mres.vals and np.asarray(rres).dtype == np.asarray(mres.vals).dtype):
                             V.append(violation('C04/values', site0, 'cell %r: got %r expected %r' % (key, rres, mres.vals)))
